@@ -141,7 +141,7 @@ def r_C04num(root):
     out = []; inst = 0
     lang = load(root, L); regs = {}
     for n in lang.body:
-        if isinstance(n, ast.Assign) and isinstance(n.value, ast.Call) and getattr(n.value.func, "id", None) == "_" and isinstance(n.targets[0], ast.Name):
+        if isinstance(n, ast.Assign) and isinstance(n.value, ast.Call) and getattr(n.value.func, "id", None) in ("_", "RegExMatch") and isinstance(n.targets[0], ast.Name):
             regs[n.targets[0].id] = const_str(n.value.args[0], lang)
     for k in ("INT", "FLOAT", "STRICTFLOAT"):
         if regs.get(k) is None: raise AnalysisError("regex of base type %s not found as a constant string" % k)
